@@ -63,7 +63,12 @@ TEMPLATES = {
     "dataclass_hand": ("    res.append(new == snapshot(P(a=h0, b=5)))\n", ["h0", "n0", "n1"], "P(a=n0, b=n1)"),
     "aborting_assert": ("    assert new[0] == snapshot(c0)\n    assert new[1] <= snapshot(c1)\n", ["c0", "c1", "n0", "n1"], "[n0, n1]"),
     "hasrepr": ("    res.append(new == snapshot())\n", ["n0"], "[n0, Weird(1)]"),
+    # several files: one needs create and fix, the other only create
+    "two_files": ("    res.append(new[0] == snapshot())\n    res.append(new[1] == snapshot(c0))\n", ["c0", "n0", "n1"], "[n0, n1]"),
 }
+
+
+SECOND_FILE = {"two_files": "    res.append(new[1] == snapshot())\n"}
 
 
 def helper_case(tname, fbits, vals):
@@ -76,6 +81,9 @@ def helper_case(tname, fbits, vals):
     flags = [c for c, b in zip(CATS, fbits) if b]
     text = HEAD + "def test_a():\n" + body
     text = world.prepare(text)
+    files = {"test_a.py": text}
+    if tname in SECOND_FILE:
+        files["test_b.py"] = world.prepare(HEAD + "def test_b():\n" + SECOND_FILE[tname])
     # ---- (1) Example.run_inline, unmodified
     for k in list(vars(SV)):
         if not k.startswith("__"):
@@ -87,14 +95,14 @@ def helper_case(tname, fbits, vals):
     err1 = None
     with contextlib.redirect_stdout(io.StringIO()), contextlib.redirect_stderr(io.StringIO()):
         try:
-            Example({"test_a.py": text}).run_inline(["--inline-snapshot=" + ",".join(flags)] if flags else [], reported_categories=cap_cat, changed_files=cap_files, raises=Capture())
+            Example(dict(files)).run_inline(["--inline-snapshot=" + ",".join(flags)] if flags else [], reported_categories=cap_cat, changed_files=cap_files, raises=Capture())
         except Exception as e:
             err1 = e
     inline_files = dict(cap_files.v or {})
     inline_cats = sorted(cap_cat.v or [])
     # ---- (2) the real plugin hooks
     W.ns["res"] = []
-    r = world.plugin_session({"test_a.py": text}, cli=",".join(flags + ["report"]), extra_globals={k: v for k, v in W.ns.items()})
+    r = world.plugin_session(dict(files), cli=",".join(flags + ["report"]), extra_globals={k: v for k, v in W.ns.items()})
     plugin_files = {k: v for k, v in r.written.items()}
     plugin_cats = sorted(c for c in CATS if any(p == f"RULE [yellow bold]{c.capitalize()} snapshots" for p in r.printed))
     PathLog.record(tname + str(flags) + str(inline_files) + str(plugin_files), nontrivial=bool(inline_files),
